@@ -38,6 +38,8 @@ class Check:
         """fail closed when an anchor set is empty or below its floor"""
         n = found if isinstance(found, int) else len(found)
         self.anchor_counts["%s:%s" % (rule, name)] = n
+        if os.environ.get("VT_ANCHORS"):
+            print("ANCHOR %s %s:%s n=%d floor=%d" % (self.pid if hasattr(self, "pid") else "", rule, name, n, floor))
         if n < floor:
             self.violation(rule, "anchor-missing|" + name,
                            "anchor set '%s' has %d members, floor %d (rule cannot be evaluated)" % (name, n, floor))
